@@ -176,6 +176,33 @@ PROPS = {
         assumptions=["a size probe that is taken back and re-cut is a new segment under the old sequence number: its transmission count starts again and its expiry is not a congestion timeout",
                      "timing tolerance 3 ms (timer wheel rounding + one logical step)"],
     ),
+    "C08": dict(
+        level="exploration",
+        level_text="Hook, boundary and wire oracles over generated life-cycle executions: a subject socket with max_live_vsocks 1..4 "
+                   "against a second real socket goes through 1..3 rounds; every round opens as many connections as the limit allows "
+                   "(connecting and accepting), moves bytes both ways and ends each connection in a generated way (graceful close; "
+                   "both halves dropped mid-transfer; shutdown while the peer application idles; peer dropping first while the "
+                   "subject keeps writing; injected RESET; dropping while the peer has stopped reading), optionally with the path cut "
+                   "in one or both directions mid-round; loss up to 15 %, duplication, reordering. After a bounded virtual wait "
+                   "(inactivity limit + 150 s) the next round needs every slot again; a final round re-opens max_live_vsocks "
+                   "connections; half of the cases then cancel the socket's token with 0..limit connections open and data in flight. "
+                   "Checked: connection object dropped within the bound after the application let go / at once on failure; "
+                   "dispatcher table entries always belong to a live object and the table is empty after every round; re-opening "
+                   "never fails for lack of a slot; no datagram with a dropped connection's identifiers; after cancel every object "
+                   "gone within two steps, held halves / accept / connect report errors, socket silent.",
+        level_note=SIM_NOTE + "; 'bounded time' is judged against one generous bound in virtual time, so a slower but still "
+                   "bounded termination is not distinguished from the present one",
+        technique="runtime monitoring: life-cycle workload with fault injection + hooked object/table state, API log and wire trace oracles",
+        budget=dict(quick=200, thorough=2400),
+        require=["c08_connection_ends_judged", "c08_failed_connections_seen", "c08_empty_table_checks", "c08_table_observations",
+                 "c08_ended_connections_checked_for_silence", "c08_cancellations", "c08_connections_live_at_cancel",
+                 "c08_operations_after_cancel_checked"],
+        rule="a case is one generated (limit, socket options, rounds x connection endings x round fault, network, cancel plan) "
+             "tuple; non-trivial = at least 2 connection ends judged; distinct = distinct normalised wire trace; coverage_labels "
+             "lists the (ending, round fault) pairs exercised",
+        assumptions=["after the peer's FIN was received, EOF (not an error) is the right answer of a read after cancel",
+                     "a connect that fails because its fresh connection id collides with a live one (C12) is not a slot leak"],
+    ),
     "C09": dict(
         level="exploration",
         level_text="Two oracles. Arithmetic: the real seq_nr_offset / SeqNr ordering against true modular distance for every pair "
@@ -194,6 +221,35 @@ PROPS = {
              "slice / distinct normalised wire trace",
         assumptions=["initial sequence numbers and connection ids are injected through the UtpEnvironment hook",
                      "distances beyond +-8192 (link MTU below 176 bytes with 1 MiB buffers) are not judged"],
+    ),
+    "C10": dict(
+        level="exploration",
+        level_text="Three workload families under panic / internal-error / isolation monitors. (1) hostile: 2..5 real sockets with "
+                   "2..8 token-identified connections and an attacker that sees the wire and spoofs any address: 20..400 datagrams "
+                   "per case aimed at one live connection's exact identifiers in both directions (every packet type, sequence / "
+                   "acknowledgement numbers at 0, +-1, +-50, +-2000, +-2^15 and random, windows 0..2^32-1, selective ACKs and "
+                   "unknown extensions of length 0..255 incl. lying lengths, payloads 0..20000 bytes, truncations, bad version / "
+                   "type nibbles, verbatim replays) plus noise, unknown ids / peers and a few foreign SYNs; afterwards fresh "
+                   "connects between every pair used. (2) script_scan: the scripted-peer walks of C04/C05/C06/C07/C17 with the peer "
+                   "itself hostile (same mutations, every handshake / teardown state as start point). (3) duplex_scan: the general "
+                   "fault / chaos family of C01. Checked: no panic; no 'bug' error from a connection end, an API call or a WARN line; "
+                   "bystander connections keep content, demultiplexing and (loss-free network) completion; post-attack connects are "
+                   "served; hooked per-connection buffering (user queue, reassembly slots x 16 KiB, TX ring, segment list, inbound "
+                   "channel) within configured sizes.",
+        level_note=SIM_NOTE + "; the attacker never sends a datagram that names a connection other than its target (that would "
+                   "not be 'aimed at one connection id'); a bystander damaged by a known same-connection mechanism (C01 known finding) "
+                   "is counted, not judged",
+        technique="runtime monitoring: hostile-datagram workload (on-path attacker, hostile scripted peer) + panic / bug-error / "
+                  "bystander-isolation / buffer-bound monitors",
+        budget=dict(quick=300, thorough=3600),
+        require=["c10_hostile_datagrams_handed_to_sockets", "c10_cases_aimed_at_a_live_connection", "c10_target_connection_broken",
+                 "c10_target_connection_survived", "c10_post_attack_connects_checked", "c10_snapshots_checked_for_bounds",
+                 "c10_hostile_peer_datagrams", "c10_logs_scanned_for_panic_and_bug", "c12_bytes_content_checked",
+                 "c12_demux_deliveries_checked"],
+        rule="a case is one generated (sockets, connections, network, attack plan) tuple, one hostile scripted-peer walk or one duplex "
+             "execution; non-trivial = at least 10 hostile datagrams handed to sockets with 2 connections established (hostile) / "
+             "more than 3 (10) datagrams (scans); distinct = distinct normalised wire trace",
+        assumptions=["a SYN flood is not 'traffic aimed at one connection id': at most 3 foreign SYNs per case"],
     ),
     "C11": dict(
         level="exploration",
@@ -215,6 +271,30 @@ PROPS = {
              "one string parsed (grid/random) or more than 3 datagrams emitted; distinct = distinct nibble pair / string-set hash / "
              "wire trace hash",
         assumptions=["byte-identical re-encoding is not demanded for SACK extensions that are not 8 bytes long (the code documents the 64-bit normalisation)"],
+    ),
+    "C12": dict(
+        level="exploration",
+        level_text="Boundary, hook and table oracles over generated multi-socket executions: 2..5 real sockets, 3..24 connections "
+                   "between them (several per pair, both directions, in bursts or spread out), each identified end to end by a "
+                   "token the connector writes first and carrying its own two generator streams; in 60 % of the cases every "
+                   "connection uses the same initial sequence numbers and the sockets' connection id counters start at the same or "
+                   "adjacent values (so receive ids collide wherever the code lets them); max_live_vsocks 1..6 on half of the "
+                   "sockets; loss, duplication, reordering. Checked: every byte read is the byte the peer of that connection wrote "
+                   "at that offset, tokens intact, one accepted stream per connect; every payload offered to a reassembler came in "
+                   "a datagram naming that connection; live objects never share (remote, receive id), an accepted connection never "
+                   "takes the id of a connect in progress, no duplicate table key; live objects and table entries within the limit; "
+                   "on a loss-free network every established connection completes whatever else was attempted or refused.",
+        level_note=SIM_NOTE + "; a connection that was handed datagrams of an earlier incarnation of its own (address, id) key is "
+                   "not judged on content (the protocol has no TIME_WAIT and the family removes the protection of random "
+                   "sequence numbers on purpose); sharing a send id with a peer-side lingering incarnation is counted, not judged",
+        technique="runtime monitoring: multi-connection workload with forced identifier collisions + per-connection content, "
+                  "demultiplexing (hook vs wire) and table-state oracles",
+        budget=dict(quick=200, thorough=2400),
+        require=["c12_bytes_content_checked", "c12_demux_deliveries_checked", "c12_connection_objects", "c12_table_observations",
+                 "c12_connections_established", "c12_connects_refused_by_limit"],
+        rule="a case is one generated (sockets, limits, identifier plan, connection schedule, network) tuple; non-trivial = at "
+             "least 2 connections established; distinct = distinct normalised wire trace",
+        assumptions=["at most 4 connects are outstanding per (socket, address) (MAX_CONNECTING_PER_ADDR); a 5th concurrent one fails by design"],
     ),
     "C14": dict(
         level="exploration",
